@@ -6,7 +6,6 @@ import (
 	"strings"
 	"unicode/utf8"
 
-	"github.com/aundis/formula"
 
 	"verifmon/internal/core"
 	"verifmon/internal/gen"
@@ -165,7 +164,7 @@ var c13Seq = core.Mon(c13, "literal-sequence", func(w *core.W, c *StrSeqCase) {
 var c13Open = core.Mon(c13, "unterminated", func(w *core.W, c *ParseCase) {
 	w.Eval(1)
 	var err error
-	panicked, pv := core.Call(func() { _, err = formula.ParseSourceCode(c.Src) })
+	panicked, pv := core.Call(func() { _, err = hostParse(c.Src, true) })
 	w.Count("unterminated_checked")
 	w.Nontrivial("open:" + string(c.Src))
 	if panicked {
